@@ -403,6 +403,53 @@ func c02Run(c *C) {
 				}
 			}
 			c.Cover("execute_blocks_fixed")
+			// blocks asked for one by one while an EARLIER block of the request fails inside an opt-out region (autoescape
+			// off, a macro called there, an include there): whatever ExecuteBlocks hands back - with or without an error -
+			// carries the later blocks' context strings escaped (their source has no opt-out)
+			fctx := c02Ctx(false)
+			fctx["c02fail"] = func() (string, error) { return "", fmt.Errorf("c02: deliberate failure") }
+			for _, bad := range []string{
+				"{% autoescape off %}{{ c02fail() }}{% endautoescape %}",
+				"{% autoescape off %}{% for i in tl %}{% if forloop.Last %}{{ c02fail() }}{% endif %}{% endfor %}{% endautoescape %}",
+				"{% autoescape off %}{% with w=1 %}{% include \"/failing.tpl\" %}{% endwith %}{% endautoescape %}",
+				"{% autoescape off %}{% macro fm() %}{{ c02fail() }}{% endmacro %}{{ fm() }}{% endautoescape %}",
+				"{% autoescape off %}{% filter upper %}{{ c02fail() }}{% endfilter %}{% endautoescape %}",
+			} {
+				bset, _ := newSet(map[string]string{"/failing.tpl": "x{{ c02fail() }}", "/base.tpl": "{% block a0 %}" + bad + "{% endblock %}{% block b1 %}base {{ t2 }}{% endblock %}{% block b2 %}{{ t1 }}{% for i in tl %}{{ i }}{% endfor %}{% endblock %}",
+					"/main.tpl": "{% extends \"/base.tpl\" %}{% block b1 %}{{ t1 }}{{ block.Super }}{% endblock %}"})
+				for _, name := range []string{"/main.tpl", "/base.tpl"} {
+					tpl, err := bset.FromFile(name)
+					if err != nil {
+						c.Fail("setup", D{"error": err.Error()})
+						return
+					}
+					for _, req := range [][]string{{"a0", "b1", "b2"}, {"b1", "a0", "b2"}, {"a0", "b2"}} {
+						blocks, berr := tpl.ExecuteBlocks(fctx, req)
+						c.Eval(1)
+						for bn, out := range blocks {
+							if leak := c02Leak(out, false); leak != "" {
+								c.Fail("raw-leak", D{"entry": "ExecuteBlocks", "template": name, "requested": req, "block": bn, "failing_block": bad, "returned_error": errStr(berr), "output": q(out), "leak": q(leak),
+									"why": "an earlier block of the request failed inside an autoescape-off region; the block printed here has no opt-out"})
+								return
+							}
+						}
+						// and the template is unharmed: the blocks alone still come escaped
+						ok2, err2 := tpl.ExecuteBlocks(fctx, []string{"b1", "b2"})
+						c.Eval(1)
+						if err2 != nil {
+							c.Fail("setup", D{"error": err2.Error()})
+							return
+						}
+						for bn, out := range ok2 {
+							if leak := c02Leak(out, false); leak != "" {
+								c.Fail("raw-leak", D{"entry": "ExecuteBlocks", "template": name, "block": bn, "after_a_failed_request": req, "output": q(out), "leak": q(leak)})
+								return
+							}
+						}
+					}
+				}
+			}
+			c.Cover("execute_blocks_after_failing_block")
 		}
 		if c.WantSample() && f == "join" {
 			out, _, _ := renderString("{{ tl|join:t1 }}", c02Ctx(false))
